@@ -7,7 +7,19 @@ replacement) placed into *skeletons* that stress the line arithmetic of the fixe
 """
 from ..prng import Rng
 
-PRELUDE = '''def takes_int(x: int) -> int:
+PRELUDE = '''from asynq import asynq
+
+
+@asynq()
+def fetch(x: int) -> int:
+    return x
+
+
+async def aio_fetch(x: int) -> int:
+    return x
+
+
+def takes_int(x: int) -> int:
     return x
 
 
@@ -89,11 +101,28 @@ ATOMS = {
     "possibly_undef": dict(codes=["possibly_undefined_name"], lines=["if p:", "    maybe_{n} = {n}", "print(maybe_{n})"], simple=False),
 }
 
+# atoms for the asynq / await fix producers; only placed inside @asynq() functions
+ASYNQ_ATOMS = {
+    "dup_yield2": ["ya_{n} = yield fetch.asynq({n})", "yb_{n} = yield fetch.asynq(p)", "print(ya_{n}, yb_{n})"],
+    "dup_yield3": ["ya_{n} = yield fetch.asynq({n})", "yb_{n} = yield fetch.asynq(p)", "yc_{n} = yield fetch.asynq(3)", "print(ya_{n}, yb_{n}, yc_{n})"],
+    "dup_underscore": ["_ = yield fetch.asynq({n})", "_ = yield fetch.asynq(p)"],
+    "dup_tuple_target": ["yc_{n} = yield fetch.asynq({n}), fetch.asynq(2)", "yd_{n} = yield fetch.asynq(3)", "print(yc_{n}, yd_{n})"],
+    "unnecessary": ["ye_{n} = yield fetch.asynq({n})", "mid_{n} = p + {n}", "yf_{n} = yield fetch.asynq(mid_{n})", "print(ye_{n}, yf_{n})"],
+    "task_needs_yield": ["fetch.asynq(p + {n})"],
+    "task_needs_yield_kw": ["fetch.asynq(x={n})"],
+    "impure_call": ["print(fetch(p + {n}))"],
+    "impure_call_nested": ["print(takes_two(fetch({n}), fetch(p)))"],
+    "dup_nested": ["if p:", "    yg_{n} = yield fetch.asynq({n})", "    yh_{n} = yield fetch.asynq(p)", "    print(yg_{n}, yh_{n})"],
+    "dup_ml": ["yi_{n} = yield fetch.asynq(", "    {n}", ")", "yj_{n} = yield fetch.asynq(p)", "print(yi_{n}, yj_{n})"],
+    "dup_attr_target": ["holder_{n} = Ctx()", "holder_{n}.a = yield fetch.asynq({n})", "holder_{n}.b = yield fetch.asynq(p)", "print(holder_{n})"],
+    "dup_mixed": ["ym_{n} = yield fetch.asynq({n})", "_ = yield fetch.asynq(p)", "yn_{n} = yield fetch.asynq(ym_{n})", "print(yn_{n})"],
+}
+
 # atoms that hit a recorded, unrepaired defect of pyanalyze (KNOWN_FINDINGS.json); they are
 # generated only when explicitly enabled so that the rest of the search is not drowned
 KNOWN_DEFECT_ATOMS = {"backslash", "with_multi", "ml_fstring_undef"}
 
-SKELETONS = ["plain", "only_stmt_of_if", "for_body", "try_except", "with_block", "one_line_if", "semicolon",
+SKELETONS = ["asynq_fn", "missing_asynq_fn", "async_def", "plain", "only_stmt_of_if", "for_body", "try_except", "with_block", "one_line_if", "semicolon",
              "method", "nested", "after_comment", "after_decorator", "else_branch", "while_body"]
 
 
@@ -199,6 +228,24 @@ class Gen:
         r = self.r
         skeleton = r.choice(self.enabled_skeletons)
         self.meta["skeletons"].append(skeleton)
+        if skeleton == "asynq_fn":
+            body = []
+            for _ in range(r.randint(1, 3)):
+                name = r.choice(sorted(ASYNQ_ATOMS))
+                n = self.next_n()
+                self.meta["atoms"].append("asynq:" + name)
+                body += [l.format(n=n) for l in ASYNQ_ATOMS[name]]
+            body += ["last_%d = yield fetch.asynq(0)" % self.next_n(), "return p"]
+            body[-2:] = ["return p"] if r.chance(0.5) else body[-2:]
+            return ["@asynq()", "def af%d(p: int = 3, q: str = \"w\", pair: tuple = (4, 5)):" % k] + _indent(body, "    ")
+        if skeleton == "missing_asynq_fn":
+            n = self.next_n()
+            self.meta["atoms"].append("asynq:missing_asynq")
+            return ["def gen%d(p: int = 3):" % k, "    got_%d = yield fetch.asynq(p + %d)" % (n, n), "    return got_%d" % n]
+        if skeleton == "async_def":
+            n = self.next_n()
+            self.meta["atoms"].append("asynq:missing_await")
+            return ["async def co%d(p: int = 3) -> None:" % k, "    aio_fetch(p + %d)" % n, "    print(p)"]
         body = []
         for _ in range(r.randint(1, 2) if skeleton != "method" else 1):
             sk = skeleton if skeleton not in ("method", "after_decorator") else r.choice(["plain", "only_stmt_of_if", "for_body"])
@@ -275,7 +322,7 @@ class Gen:
         files = {}
         for i in range(r.choice([1, 1, 1, 2, 2, 3])):
             files["mod_%s%d.py" % (chr(97 + i), r.below(90))] = self.module("m%d" % i)
-        enable = sorted({c for a in self.meta["atoms"] for c in ATOMS[a].get("enable", [])})
+        enable = sorted({c for a in self.meta["atoms"] if a in ATOMS for c in ATOMS[a].get("enable", [])})
         self.meta["enable"] = enable
         self.meta["enabled_atoms"] = sorted(self.enabled_atoms)
         return files, self.meta
